@@ -41,12 +41,14 @@ const H_PI: u8 = 6;
 const H_F0: u8 = 7;
 const H_FN: u8 = 8;
 const H_FP: u8 = 9;
+const H_QQ: u8 = 10;
 
 pub fn kinds() -> Vec<UKind> {
     vec![
         UKind { name: "event-ok", text: "EV", handler: Some(H_EV), query: false, fail: None, own: Inv::Must },
         UKind { name: "query-ok-1", text: "QA?", handler: Some(H_Q1), query: true, fail: None, own: Inv::Must },
         UKind { name: "query-ok-hdr2", text: "QH?", handler: Some(H_QH), query: true, fail: None, own: Inv::Must },
+        UKind { name: "query-ok-quoted", text: "QQ?", handler: Some(H_QQ), query: true, fail: None, own: Inv::Must },
         UKind { name: "handler-error-event", text: "FE", handler: Some(H_FE), query: false, fail: Some((-200, None)), own: Inv::Must },
         UKind { name: "handler-error-after-partial-write", text: "FQ?", handler: Some(H_FQ), query: true, fail: Some((-300, Some(b"partial"))), own: Inv::Must },
         UKind { name: "handler-returns-code-0", text: "FZ", handler: Some(H_F0), query: false, fail: Some((0, None)), own: Inv::Must },
@@ -75,6 +77,7 @@ pub fn trees() -> Vec<(&'static str, TreeSpec, &'static str)> {
             TreeSpec::leaf("FZ", H_F0),
             TreeSpec::leaf("FN", H_FN),
             TreeSpec::leaf("FP", H_FP),
+            TreeSpec::leaf("QQ", H_QQ),
         ]
     };
     vec![
@@ -104,6 +107,7 @@ pub fn plans(dev: &mut RigDev) {
     dev.plan[H_F0 as usize] = Plan { fail: Some(Error::new(ErrorCode::NoError)), ..Plan::NOP };
     dev.plan[H_FN as usize] = Plan { fail: Some(Error::custom(-42, b"Custom")), ..Plan::NOP };
     dev.plan[H_FP as usize] = Plan { fail: Some(Error::custom(5, b"Custom").extended(b"x\"y")), ..Plan::NOP };
+    dev.plan[H_QQ as usize] = Plan::resp(&[Item::Str(b"a-long-segment-first\"x")]);
     dev.plan[H_P1 as usize] = Plan::pull(1, 0);
     dev.plan[H_PI as usize] = Plan {
         req: 1,
@@ -281,6 +285,7 @@ fn failing_unit(ks: &[UKind], seq: &[usize], out: &[u8], cap: usize) -> (usize, 
         let text: &[u8] = match ks[k].name {
             "query-ok-1" => b"7",
             "query-ok-hdr2" => b"HD \"s;t\",1",
+            "query-ok-quoted" => b"\"a-long-segment-first\"\"x\"",
             _ => b"",
         };
         if !first {
@@ -302,7 +307,7 @@ fn failing_unit(ks: &[UKind], seq: &[usize], out: &[u8], cap: usize) -> (usize, 
 
 pub fn run(ctx: &'static Ctx) -> i32 {
     let ks = kinds();
-    let k = ctx.tier.pick(4usize, 5usize);
+    let k = ctx.tier.pick(3usize, 4usize);
     let nk = ks.len() as u64;
     let mut seqs: Vec<Vec<usize>> = vec![];
     for len in 1..=k {
@@ -369,7 +374,7 @@ pub fn run(ctx: &'static Ctx) -> i32 {
     c.insert("evaluations".into(), json!(runs + cap_runs));
     c.insert("distinct_nontrivial".into(), json!(failing + cap_runs));
     c.insert("distinct_failure_position_kind_pairs".into(), json!(outcomes.len()));
-    c.insert("rule".into(), json!(format!("every message of 1..{k} units over 15 unit kinds (event ok, query ok with 1 datum / header+2 data, handler-returned error from event / from query after a partial write, handler-returned errors with the unusual codes 0, -42 and +5 (with extended text), surplus parameter -108, missing -109, type -104, range -222, undefined header -113, lexical error in data, lexical error in header) on a flat tree and on a nested tree reached through a default branch; reference executor: units left to right, first failing unit i => handler log is exactly units < i plus unit i's own handler iff the failure arises inside/after it, run returns exactly that error, handle_error receives exactly that error once, never on success. Formatter faults: for every successful message with output, every ArrayVec capacity 0..|R|-1 (one failing write each; the failing unit is computed from the reference response layout) must give -225 once with no later handler. Distinct non-trivial = failing messages + capacity-fault runs")));
+    c.insert("rule".into(), json!(format!("every message of 1..{k} units over 16 unit kinds (event ok, query ok with 1 datum / header+2 data / a string with an embedded quote behind a long segment, handler-returned error from event / from query after a partial write, handler-returned errors with the unusual codes 0, -42 and +5 (with extended text), surplus parameter -108, missing -109, type -104, range -222, undefined header -113, lexical error in data, lexical error in header) on a flat tree and on a nested tree reached through a default branch; reference executor: units left to right, first failing unit i => handler log is exactly units < i plus unit i's own handler iff the failure arises inside/after it, run returns exactly that error, handle_error receives exactly that error once, never on success. Formatter faults: for every successful message with output, every ArrayVec capacity 0..|R|-1 (one failing write each; the failing unit is computed from the reference response layout) must give -225 once with no later handler. Distinct non-trivial = failing messages + capacity-fault runs")));
     c.insert("exhaustive".into(), json!(true));
     c.insert("messages".into(), json!(runs));
     c.insert("formatter_fault_runs".into(), json!(cap_runs));
